@@ -20,6 +20,10 @@ let corpus = [
   (* everything in one segment; the RDB ends inside the first read *)
   { mode = "psync"; start = 1000; runid = "abc"; nrdb = 5; seed_r = 1; ncmd = 20; seed_c = 2; chunk = 7; pause_us = 0;
     conns = [ { hdr = "+FULLRESYNC abc 1000\r\n\n$5\r\n"; acts = [ "S52" ] } ]; quiet = true; note = "one segment" };
+  (* the first command bytes arrive in the segment that carries the RDB tail; then the link drops *)
+  { mode = "psync"; start = 1000; runid = "abc"; nrdb = 9000; seed_r = 1; ncmd = 500; seed_c = 2; chunk = 4096; pause_us = 0;
+    conns = [ { hdr = "+FULLRESYNC abc 1000\r\n$9000\r\n"; acts = [ "S8000"; "P20"; "S1130"; "P20"; "S1000"; "P150"; "D" ] };
+              { hdr = "+CONTINUE\r\n"; acts = [ "S511"; "P100" ] } ]; quiet = true; note = "commands behind the RDB tail, then a dropped link" };
   { mode = "dump"; start = 0; runid = ""; nrdb = 8193; seed_r = 3; ncmd = 9; seed_c = 4; chunk = 1; pause_us = 0;
     conns = [ { hdr = "\n\n$8193\r\n"; acts = [ "S3"; "S8198"; "S9" ] } ]; quiet = true; note = "dump" } ]
 
@@ -75,6 +79,12 @@ let judge c obs =
     else if field_exn obs "rdbfnv" <> fnv64 rdb then fail "oracle" "rdb-bytes" expect impl "the RDB consumer did not see exactly the n RDB bytes"
     else if geti "streamlen" <> c.ncmd || field_exn obs "streamfnv" <> fnv64 cmds then
       fail "oracle" "stream-bytes" expect impl (Printf.sprintf "the command parser did not see exactly the bytes after the RDB (first difference at stream position %s)" (field_exn obs "diff"))
+    else if (match field obs "ev" with
+             | Some ev -> List.exists (fun e -> match String.split_on_char ':' e with
+                 | [ "psync"; conn; _; v; _ ] when conn <> "0" -> let v = int_of_string v in v < c.start + 1 || v > c.start + c.ncmd + 1
+                 | "bad" :: _ -> true | _ -> false) (String.split_on_char ',' ev)
+             | None -> false) then
+      fail "oracle" "reconnect-offset" expect impl "the PSYNC sent on the re-established connection asks for an offset outside [start+1, start+received+1]"
     else if c.nrdb + c.ncmd > 300000 then Agree
     else match Model.handoff (bytes_of_string ((List.hd c.conns).hdr ^ rdb ^ cmds)) (Lazy.force copy_buf) (frag c) with
       | Some h ->
